@@ -186,6 +186,7 @@ type Result struct {
 	Trace         []string         `json:"trace,omitempty"`
 	MaxParkedNs   int64            `json:"max_parked_ns"`
 	UncontrolledY int64            `json:"uncontrolled_yields,omitempty"`
+	MapChecks     int64            `json:"map_checks,omitempty"`
 }
 
 // ---------------------------------------------------------------------------
@@ -635,6 +636,7 @@ func execute(c *Case, w World, runSeed uint64, replayTape []int64, replay bool, 
 	res.SimNs = int64(e.Now())
 	res.OpsDone = e.OpsDone
 	res.SchedHash = e.sh.h
+	res.MapChecks = e.RT.MapChecks
 	res.TraceHash = fmt.Sprintf("%016x", e.th.h^e.sh.h)
 	// from here on goroutines are torn down: whatever they still report
 	// (errors from closed pipes, aborted waits) is not part of the run
